@@ -17,6 +17,7 @@ HERE = os.path.dirname(os.path.abspath(__file__))
 OUT = os.path.join(os.path.dirname(HERE), "lean", "MT", "Generated")
 
 lost = []
+tables = {"cli": [], "pyx": []}
 
 
 def read(rel):
@@ -396,6 +397,13 @@ def gen_dispatch():
         lost.append(("defaults", "main.hpp template defaults not found"))
         defaults = ["?", "?", "?"]
 
+    def inst_py(targs):
+        t = [norm(x) for x in targs] + [None] * 3
+        d, a, i = t[0] or defaults[0], t[1] or defaults[1], t[2] or defaults[2]
+        ff, inner = init_of(i)
+        return {"directed": DIR[d] == "true", "assort": AFF[a] == "true", "fromFile": ff == "true",
+                "initInner": None if inner == "none" else ("true" in inner)}
+
     def inst(targs):
         t = [norm(x) for x in targs] + [None] * 3
         d = t[0] or defaults[0]
@@ -427,6 +435,7 @@ def gen_dispatch():
             args = re.sub(r"\s+", "", blk[mc.end() - len("edges_start"):blk.index(");", mc.end())])
             allocv = "true" if re.search(r"\bv\.resize\s*\(\s*nof_vertices\s*,\s*nof_groups\s*\)", blk[:mc.start()]) else "false"
             rows.append((int(n), i, allocv, args))
+            tables["cli"].append({"sel": int(n), "inst": inst_py(targs), "allocV": allocv == "true"})
     if len(rows) == 0:
         lost.append(("cliTable", "switch(selection) not found"))
     seltxt = sel.group(1).strip() if sel else None
@@ -473,6 +482,9 @@ def gen_dispatch():
         call_pos = blk.index("report.c_obj")
         allocv = "true" if re.search(r"c_v\.resize\(\s*nof_vertices\s*,\s*nof_groups\s*\)", blk[:call_pos]) else "false"
         b = lambda x: "true" if x else "false"
+        tables["pyx"].append({"cWint": cond[0], "cDirected": cond[1], "cAssort": cond[2], "cFile": cond[3],
+                              "inst": inst_py(targs[:3]), "wint": wt == "true", "wcastInt": wcast == "true",
+                              "allocV": allocv == "true"})
         prow.append(f"  {{ cWint := {b(cond[0])}, cDirected := {b(cond[1])}, cAssort := {b(cond[2])}, cFile := {b(cond[3])},\n"
                     f"    inst := {i}, wint := {wt}, wcastInt := {wcast}, allocV := {allocv} }}")
     out.append("/-- one `if …:` block of multitensor.pyx: its condition literals and what it calls -/")
@@ -490,6 +502,10 @@ def gen_dispatch():
     out.append(f"/-- `c_v` starts as a 0x0 matrix -/\ndef pyxVStartsEmpty : Bool := {'true' if mcv else 'false'}\n")
     out.append("end MT.Gen\n")
     write_if_changed("Dispatch.lean", "\n".join(out))
+    tables["pyxVNoneUnlessDirected"] = bool(me)
+    tables["pyxBlockCount"] = n_if
+    import json
+    write_if_changed("tables.json", json.dumps(tables, indent=1, sort_keys=True))
 
 
 def main():
